@@ -367,6 +367,20 @@ inductive WOp where
 def World.init (f t g : Registry) : World :=
   { stores := [Store.empty], rts := [RtCfg.default], filters := ⟨[f], [0]⟩, tests := ⟨[t], [0]⟩, globals := ⟨[g], [0]⟩ }
 
+/-- the auto-escape callback of `Environment::empty()` (`no_auto_escape`: never escapes) -/
+def noAutoEscape : Nat := 2
+
+/-- `Environment::empty()`: no filters, tests, globals; the auto-escape callback never escapes; all
+    other fields as in `Environment::new()` -/
+def World.initEmpty : World :=
+  { stores := [{ Store.empty with cfg := { LtCfg.default with autoEscape := noAutoEscape } }], rts := [RtCfg.default],
+    filters := ⟨[[]], [0]⟩, tests := ⟨[[]], [0]⟩, globals := ⟨[[]], [0]⟩ }
+
+/-- which arm of `insert_cow` an addition takes: the borrowed arm needs BOTH the name and the source
+    borrowed (`add_template`, or `add_template_owned` with two `&str`); any owned part sends it to
+    the owned arm -/
+def insertArmOf (nameBorrowed sourceBorrowed : Bool) : Bool := nameBorrowed && sourceBorrowed
+
 def World.modReg (w : World) (k : RegKind) (e : Nat) (f : Registry → Registry) : World :=
   match k with
   | .filter => { w with filters := w.filters.makeMut e f }
@@ -479,6 +493,13 @@ def World.resultsAt (compiles : LtCfg → Source → Bool) (w : World) (e : Nat)
 def World.runAt (compiles : LtCfg → Source → Bool) (w : World) (e : Nat) : List EOp → World
   | [] => w
   | op :: ops => World.runAt compiles (w.step compiles (op.at e)).1 e ops
+
+/-- taking everything out of an `Environment::new()` that `Environment::empty()` does not have:
+    `remove_filter`/`remove_test`/`remove_global` for every builtin and `set_auto_escape_callback`
+    with the callback that never escapes -/
+def stripOps (f t g : Registry) : List EOp :=
+  f.map (fun p => EOp.regRemove .filter p.1) ++ t.map (fun p => EOp.regRemove .test p.1) ++
+  g.map (fun p => EOp.regRemove .global p.1) ++ [.store (.setCfg { LtCfg.default with autoEscape := noAutoEscape })]
 
 /-! ## state identity: which render a macro value belongs to
 
@@ -631,9 +652,5 @@ def modelThreadLocals : List (String × String) :=
     `dropGuard true`: the condition is the guard's own `reset_on_drop` and nothing else -/
 def modelDropGuards : List (String × String × String) :=
   [("InternalSerializationGuard", "self.reset_on_drop", "self.flag.set(false);")]
-
-/-- `take_pending_block_buffer` / `take_span_stack_buffer` clear the pooled buffer -/
-def modelPoolTakeClears : List (String × Bool) :=
-  [("take_pending_block_buffer", true), ("take_span_stack_buffer", true)]
 
 end MJ.Store
